@@ -10,6 +10,9 @@ import (
 	"math/rand"
 	"runtime"
 	"runtime/debug"
+	"sync"
+	"sync/atomic"
+	"time"
 	"unsafe"
 
 	"github.com/go-netty/go-netty/utils/pool"
@@ -35,6 +38,7 @@ type PoolCase struct {
 	Seed    int64    `json:"seed"`
 	MaxBufs int      `json:"max_bufs"`
 	PMath   []int    `json:"pmath"` // values for which ceil/floor/class are reported
+	Stress  int      `json:"stress"` // > 0: concurrent Get/Put by 8 goroutines for this many milliseconds (ownership oracle only)
 }
 
 type PoolEvent struct {
@@ -75,6 +79,10 @@ func dataPtr(b []byte) uintptr {
 
 func runPoolCase(c *PoolCase) *PoolResult {
 	res := &PoolResult{ID: c.ID, Fails: []Fail{}}
+	if c.Stress > 0 {
+		runPoolStress(c, res)
+		return res
+	}
 	// sync.Pool is per-P and cleared by GC: pin both so that the history is reproducible
 	runtime.GOMAXPROCS(1)
 	old := debug.SetGCPercent(-1)
@@ -222,4 +230,79 @@ func runPoolCase(c *PoolCase) *PoolResult {
 		}
 	}
 	return res
+}
+
+// runPoolStress: real concurrency (no gates): every buffer has an owner counter; a buffer handed to
+// two goroutines at once, or with a capacity below the request, fails the C19 oracle.
+func runPoolStress(c *PoolCase, res *PoolResult) {
+	runtime.GOMAXPROCS(8)
+	var pb *pbytes.Pool
+	var pf *pbuffer.Pool
+	if c.Kind == "buffer" {
+		pf = pbuffer.New(c.Max)
+	} else {
+		pb = pbytes.New(c.Max)
+	}
+	var owners sync.Map // data pointer -> *int32
+	var mu sync.Mutex
+	failed := map[string]bool{}
+	fail := func(key, msg string) {
+		mu.Lock()
+		if !failed[key] {
+			failed[key] = true
+			res.Fails = append(res.Fails, Fail{Prop: "C19", Key: key, Msg: msg})
+		}
+		mu.Unlock()
+	}
+	deadline := time.Now().Add(time.Duration(c.Stress) * time.Millisecond)
+	var wg sync.WaitGroup
+	var ops int64
+	for g := 0; g < 8; g++ {
+		wg.Add(1)
+		go func(g int) {
+			defer wg.Done()
+			rnd := rand.New(rand.NewSource(c.Seed + int64(g)))
+			for time.Now().Before(deadline) {
+				n := c.Sizes[rnd.Intn(len(c.Sizes))]
+				var b []byte
+				var bs *[]byte
+				var bb *bytes.Buffer
+				if pf != nil {
+					bb = pf.Get(n)
+					b = bb.Bytes()[:0:bb.Cap()]
+				} else {
+					bs = pb.Get(n)
+					b = (*bs)[:0:cap(*bs)]
+				}
+				atomic.AddInt64(&ops, 1)
+				if cap(b) < n {
+					fail("cap-below-request", fmt.Sprintf("%s pool(max %d): Get(%d) returned capacity %d under concurrent use", c.Kind, c.Max, n, cap(b)))
+				}
+				if cap(b) == 0 {
+					continue
+				}
+				ptr := dataPtr(b)
+				v, _ := owners.LoadOrStore(ptr, new(int32))
+				cnt := v.(*int32)
+				if atomic.AddInt32(cnt, 1) != 1 {
+					fail("double-handout", fmt.Sprintf("%s pool(max %d): one buffer (cap %d) was handed out to two goroutines at the same time", c.Kind, c.Max, cap(b)))
+				}
+				full := b[:cap(b)]
+				full[0] = byte(g)
+				runtime.Gosched()
+				if full[0] != byte(g) {
+					fail("double-handout", fmt.Sprintf("%s pool(max %d): a buffer held by one goroutine was overwritten by another", c.Kind, c.Max))
+				}
+				atomic.AddInt32(cnt, -1)
+				if pf != nil {
+					pf.Put(bb)
+				} else {
+					bb2 := b[:0]
+					pb.Put(&bb2)
+				}
+			}
+		}(g)
+	}
+	wg.Wait()
+	res.Hits = int(ops)
 }
